@@ -24,7 +24,7 @@ abbrev Mat := List Col
 def absR (x : Rat) : Rat := if x < 0 then -x else x
 def maxR (a b : Rat) : Rat := if a < b then b else a
 def minR (a b : Rat) : Rat := if b < a then b else a
-def sq (x : Rat) : Rat := x * x
+def sqr (x : Rat) : Rat := x * x
 
 /-! ### the three private element-wise functions -/
 
@@ -41,7 +41,7 @@ def relErr (eps : Rat) (t p b : Rat) : Rat := (t - p) / relDen eps t b
 inductive EF | squared | absolute
   deriving DecidableEq, Repr
 def EF.app : EF → Rat → Rat
-  | .squared, x => sq x
+  | .squared, x => sqr x
   | .absolute, x => absR x
 
 /-- `_asymmetric_error` (after the dictionary lookup of the two function names succeeded) -/
@@ -154,8 +154,8 @@ def rootDeg (sqrt : Bool) (k : Nat) : Nat := if sqrt then 2 * k else k
 /-! ### the 13 functions that do not call another metric -/
 
 def absErrs (t p : Col) : Col := List.zipWith (fun a b => absR (b - a)) t p     -- np.abs(y_pred - y_true)
-def sqErrs (t p : Col) : Col := List.zipWith (fun a b => sq (a - b)) t p        -- (y_true - y_pred) ** 2
-def sqErrs' (t p : Col) : Col := List.zipWith (fun a b => sq (b - a)) t p       -- np.square(y_pred - y_true)
+def sqErrs (t p : Col) : Col := List.zipWith (fun a b => sqr (a - b)) t p        -- (y_true - y_pred) ** 2
+def sqErrs' (t p : Col) : Col := List.zipWith (fun a b => sqr (b - a)) t p       -- np.square(y_pred - y_true)
 
 /-- `mean_absolute_error` → sklearn's -/
 def meanAbsoluteError (yt yp : Mat) (hw : Option (List Rat)) (mo : MO) : Except Err Out := do
@@ -191,28 +191,31 @@ def meanAbsolutePercentageError (eps : Rat) (yt yp : Mat) (hw : Option (List Rat
   checkSum hw
   finish 1 mo (List.zipWith (fun t p => npAverage hw ((pctCol eps sym t p).map absR)) yt yp)
 
-/-- NOTE the weighted branch calls `_percentage_error(y_pred, y_true)`: arguments swapped (as in the code) -/
+/-- per-column value of `median_absolute_percentage_error`.
+NOTE the weighted branch calls `_percentage_error(y_pred, y_true)`: arguments swapped (as in the code) -/
+def mdapeCol (eps : Rat) (hw : Option (List Rat)) (sym : Bool) (t p : Col) : Rat :=
+  match hw with
+  | none => median ((pctCol eps sym t p).map absR)
+  | some w => wpct w ((pctCol eps sym p t).map absR)
+
 def medianAbsolutePercentageError (eps : Rat) (yt yp : Mat) (hw : Option (List Rat)) (mo : MO) (sym : Bool) :
     Except Err Out := do
   checkRegTargets yt yp mo
   checkHw (nrows yt) hw
-  finish 1 mo (List.zipWith (fun t p =>
-    match hw with
-    | none => median ((pctCol eps sym t p).map absR)
-    | some w => wpct w ((pctCol eps sym p t).map absR)) yt yp)
+  finish 1 mo (List.zipWith (mdapeCol eps hw sym) yt yp)
 
 def meanSquaredPercentageError (eps : Rat) (yt yp : Mat) (hw : Option (List Rat)) (mo : MO) (sqrt sym : Bool) :
     Except Err Out := do
   checkRegTargets yt yp mo
   checkHw (nrows yt) hw
   checkSum hw
-  finish (rootDeg sqrt 1) mo (List.zipWith (fun t p => npAverage hw ((pctCol eps sym t p).map sq)) yt yp)
+  finish (rootDeg sqrt 1) mo (List.zipWith (fun t p => npAverage hw ((pctCol eps sym t p).map sqr)) yt yp)
 
 def medianSquaredPercentageError (eps : Rat) (yt yp : Mat) (hw : Option (List Rat)) (mo : MO) (sqrt sym : Bool) :
     Except Err Out := do
   checkRegTargets yt yp mo
   checkHw (nrows yt) hw
-  finish (rootDeg sqrt 1) mo (List.zipWith (fun t p => medianW hw ((pctCol eps sym t p).map sq)) yt yp)
+  finish (rootDeg sqrt 1) mo (List.zipWith (fun t p => medianW hw ((pctCol eps sym t p).map sqr)) yt yp)
 
 /-- three parallel columns → relative errors -/
 def relCol (eps : Rat) : Col → Col → Col → Col
@@ -244,7 +247,7 @@ def floorEps (eps : Rat) (x : Rat) : Rat := if x = 0 then eps else x
 Unweighted: `scipy.stats.gmean(axis=0)` = product with degree n.
 Weighted: `_weighted_geometric_mean` computes `np.sum(w * np.log(x), axis=0) / np.sum(w)` with `w` of shape (n,)
 and `x` of shape (n, k): numpy broadcasts `w` along the COLUMN axis.  Faithfully:
-k = 1 → an (n, n) intermediate, n results `P^(w_j/W)` (P = product of the single column);
+k = 1 → an (n, n) intermediate, n results `P^(w_j/W)` (P = product of the single column); n = 1 → the single weight cancels;
 k = n → column j gets the exponent `w_j/W` on its plain product; otherwise a broadcasting ValueError.
 Sum of weights 0 → NaN (0/0 inside `exp`).  Negative weights are outside the modelled domain. -/
 def gmCols (eps : Rat) (g : Rat → Rat) (yt yp yb : Mat) (hw : Option (List Rat)) : Except Err (Nat × List Rat) :=
@@ -268,16 +271,16 @@ def geometricMeanRelativeAbsoluteError (eps : Rat) (yt yp yb : Mat) (hw : Option
   checkRegTargets yt yp mo
   checkRegTargets yt yb mo
   checkHw (nrows yt) hw
-  let (k, qs) ← gmCols eps absR yt yp yb hw
-  finish k mo qs
+  let kq ← gmCols eps absR yt yp yb hw
+  finish kq.1 mo kq.2
 
 def geometricMeanRelativeSquaredError (eps : Rat) (yt yp yb : Mat) (hw : Option (List Rat)) (mo : MO) (sqrt : Bool) :
     Except Err Out := do
   checkRegTargets yt yp mo
   checkRegTargets yt yb mo
   checkHw (nrows yt) hw
-  let (k, qs) ← gmCols eps sq yt yp yb hw
-  finish (rootDeg sqrt k) mo qs
+  let kq ← gmCols eps sqr yt yp yb hw
+  finish (rootDeg sqrt kq.1) mo kq.2
 
 /-- `left_error_function` / `right_error_function` names; anything else is a KeyError in the dict lookup -/
 def asymCol (thr : Rat) (l r : EF) (t p : Col) : Col := List.zipWith (asymErr thr l r) t p
@@ -304,10 +307,12 @@ def naiveTrue (sp : Int) (c : Col) : Col := sliceFrom c sp
 
 /-- `loss_pred / np.maximum(loss_naive, EPS)`, element-wise for `raw_values`, on the averages otherwise;
 both inner results are root-free -/
+def ratioVals (eps : Rat) (num den : Out) : List Rat :=
+  List.zipWith (fun a b => a / maxR b eps) num.perCol den.perCol
 def ratioOut (eps : Rat) (k : Nat) (num den : Out) : Out :=
   match num with
-  | .raw _ _ => .raw k (List.zipWith (fun a b => a / maxR b eps) num.perCol den.perCol)
-  | .avg _ _ _ => .avg k none (List.zipWith (fun a b => a / maxR b eps) num.perCol den.perCol)
+  | .raw _ _ => .raw k (ratioVals eps num den)
+  | .avg _ _ _ => .avg k none (ratioVals eps num den)
 
 inductive Train
   | arr (m : Mat)      -- np.ndarray / pandas object
@@ -370,31 +375,76 @@ def relativeLoss (eps : Rat) (yt yp yb : Mat) (f : Base) (hw : Option (List Rat)
   let lb ← f.call eps yt yb hw mo
   pure (ratioOut eps 1 lp lb)
 
-/-! ### class wrappers (`_classes.py`): `Cls(**options)(y_true, y_pred)` -/
+/-! ### calling a metric by name: `metric(y_true, y_pred, [y_train | y_pred_benchmark], **options)` -/
 inductive Metric
   | mase | mdase | msse | mdsse | mae | mse | mdae | mdse | mape | mdape | mspe | mdspe
   | mrae | mdrae | gmrae | gmrse | masym | relloss
   deriving DecidableEq, Repr
 
+/-- every argument any of the 18 functions takes; `yb` / `ytr` = `none` means "not passed" -/
+structure Args where
+  yt : Mat
+  yp : Mat
+  yb : Option Mat := none
+  ytr : Option Train := none
+  sp : Int := 1
+  ix : Option (Int × Int) := none
+  hw : Option (List Rat) := none
+  mo : MO := .uniform
+  sym : Bool := true
+  sqrt : Bool := false
+  thr : Rat := 0
+  l : Option EF := some .squared
+  r : Option EF := some .absolute
+  rlf : Base := .mae
+
+/-- a required positional argument that is not passed is a TypeError (Python's argument binding) -/
+def needArg {α} (o : Option α) (f : α → Except Err Out) : Except Err Out :=
+  match o with
+  | none => .error .type
+  | some x => f x
+
+def call (eps : Rat) (m : Metric) (a : Args) : Except Err Out :=
+  match m with
+  | .mae => meanAbsoluteError a.yt a.yp a.hw a.mo
+  | .mse => meanSquaredError a.yt a.yp a.hw a.mo a.sqrt
+  | .mdae => medianAbsoluteError a.yt a.yp a.hw a.mo
+  | .mdse => medianSquaredError a.yt a.yp a.hw a.mo a.sqrt
+  | .mape => meanAbsolutePercentageError eps a.yt a.yp a.hw a.mo a.sym
+  | .mdape => medianAbsolutePercentageError eps a.yt a.yp a.hw a.mo a.sym
+  | .mspe => meanSquaredPercentageError eps a.yt a.yp a.hw a.mo a.sqrt a.sym
+  | .mdspe => medianSquaredPercentageError eps a.yt a.yp a.hw a.mo a.sqrt a.sym
+  | .masym => meanAsymmetricError a.yt a.yp a.hw a.mo a.thr a.l a.r
+  | .mrae => needArg a.yb (fun b => meanRelativeAbsoluteError eps a.yt a.yp b a.hw a.mo)
+  | .mdrae => needArg a.yb (fun b => medianRelativeAbsoluteError eps a.yt a.yp b a.hw a.mo)
+  | .gmrae => needArg a.yb (fun b => geometricMeanRelativeAbsoluteError eps a.yt a.yp b a.hw a.mo)
+  | .gmrse => needArg a.yb (fun b => geometricMeanRelativeSquaredError eps a.yt a.yp b a.hw a.mo a.sqrt)
+  | .relloss => needArg a.yb (fun b => relativeLoss eps a.yt a.yp b a.rlf a.hw a.mo)
+  | .mase => needArg a.ytr (fun t => meanAbsoluteScaledError eps a.yt a.yp t a.ix a.sp a.hw a.mo)
+  | .mdase => needArg a.ytr (fun t => medianAbsoluteScaledError eps a.yt a.yp t a.ix a.sp a.hw a.mo)
+  | .msse => needArg a.ytr (fun t => meanSquaredScaledError eps a.yt a.yp t a.ix a.sp a.hw a.mo a.sqrt)
+  | .mdsse => needArg a.ytr (fun t => medianSquaredScaledError eps a.yt a.yp t a.ix a.sp a.hw a.mo a.sqrt)
+
+/-! ### class wrappers (`_classes.py`): `Cls(**options)(y_true, y_pred)` -/
+
+/-- the options a metric class stores (constructor arguments) -/
 structure ClsOpts where
   sym : Bool := true
   sqrt : Bool := false
+  sp : Int := 1
+  thr : Rat := 0
+  l : Option EF := some .squared
+  r : Option EF := some .absolute
+  rlf : Base := .mae
 
-/-- `__call__(self, y_true, y_pred)` of each class with its mixin.  The scaled and relative classes call their
-function with two positional arguments (TypeError: `y_train` / `y_pred_benchmark` missing);
+/-- `__call__(self, y_true, y_pred)` of each class with its mixin: `self._func(y_true, y_pred, <mixin keywords>)`.
+Only the two data arguments are passed on, so the scaled and relative functions miss `y_train` /
+`y_pred_benchmark` (TypeError from the call); the stored `sp` is never forwarded.
 `_AsymmetricErrorMixin` reads `self.asymmetric_treshold` and `_RelativeLossMixin` reads `self._relative_func`,
-neither of which is ever set (AttributeError). -/
+attributes that are never set (AttributeError before the function is reached). -/
 def classCall (eps : Rat) (c : Metric) (o : ClsOpts) (yt yp : Mat) : Except Err Out :=
   match c with
-  | .mae => meanAbsoluteError yt yp none .uniform
-  | .mdae => medianAbsoluteError yt yp none .uniform
-  | .mse => meanSquaredError yt yp none .uniform o.sqrt
-  | .mdse => medianSquaredError yt yp none .uniform o.sqrt
-  | .mape => meanAbsolutePercentageError eps yt yp none .uniform o.sym
-  | .mdape => medianAbsolutePercentageError eps yt yp none .uniform o.sym
-  | .mspe => meanSquaredPercentageError eps yt yp none .uniform o.sqrt o.sym
-  | .mdspe => medianSquaredPercentageError eps yt yp none .uniform o.sqrt o.sym
-  | .mase | .mdase | .msse | .mdsse | .mrae | .mdrae | .gmrae | .gmrse => .error .type
   | .masym | .relloss => .error .attr
+  | m => call eps m { yt := yt, yp := yp, sym := o.sym, sqrt := o.sqrt }
 
 end SkVerif.Metrics
